@@ -43,8 +43,10 @@ def gen_att_scn(rng, sid, faults):
             ops.append((flt(faults * 2.2 if faults else None), "puba", [s, 100 + len(ops), 1 if rng.random() < 0.2 else 0, atts()]))
         elif r < 0.56:
             ops.append((flt(), "pub", [s, 100 + len(ops), 1 if rng.random() < 0.2 else 0]))
-        elif r < 0.63:
+        elif r < 0.60:
             ops.append((flt(), "getdata", [s, 0, 0, 0]))
+        elif r < 0.63:
+            ops.append((flt(0.05), "getdatap", [s]))
         elif r < 0.66:
             ops.append((flt(), "getdesc", [s]))
         elif r < 0.76:
@@ -131,7 +133,7 @@ def att_monitor(base_monitor, sc, blocks):
     # the 5xx reply is an artefact of emulating the death of the process)
     cut = next((k for k in range(len(blocks)) if link_failed(sc.ops[k], blocks[k])), None)
     n = len(blocks) if cut is None else cut
-    plain = sc.clone([(f, "pub", a[:3]) if kind == "puba" else (f, "getdesc", a) if kind == "getdescp" else (f, kind, a) for f, kind, a in sc.ops])
+    plain = sc.clone([(f, "pub", a[:3]) if kind == "puba" else (f, "getdesc", a) if kind == "getdescp" else (f, "getdata", [a[0], 0, 0, 0]) if kind == "getdatap" else (f, kind, a) for f, kind, a in sc.ops])
     plain.sessions = sc.sessions
     res += base_monitor(plain, [statelib.View(b) for b in blocks[:n]])
     # 'the number acknowledged is the number every recipient and every later query shows': in BOTH wire encodings of the frame
@@ -323,7 +325,7 @@ def run_att(ctx, base_monitor):
             nt.add(hash(tuple(map(repr, sig))))
     ctx.coverage["attachments"] = {
         "evaluations": len(scns), "distinct_nontrivial": len(nt), "operations_executed": nops,
-        "rule": "seeded random histories over one group topic (head as in the topic-history generator: 2-5 users x 1-2 connections, member modes incl. read-less / write-less): sub / {pub extra.attachments=[..]} with 0-3 URLs of three kinds (no file id in the URL / well-formed id without an upload record / uploaded file) / plain pub / get data / get desc / get desc rendered in both wire encodings (JSON, protobuf) / leave / idle unload and re-attach / restart; three quarters of the histories with a failing (F k) or crashing (C k) adapter call k=1..5 on random requests (k=1 TopicUpdateOnMessage, 2 MessageSave, 3 SubsUpdate or FileLinkAttachments, 4 FileLinkAttachments of a reader); non-trivial = at least one acknowledged number; distinct by (ops, replies)",
+        "rule": "seeded random histories over one group topic (head as in the topic-history generator: 2-5 users x 1-2 connections, member modes incl. read-less / write-less): sub / {pub extra.attachments=[..]} with 0-3 URLs of three kinds (no file id in the URL / well-formed id without an upload record / uploaded file) / plain pub / get data / get desc / get desc and get data rendered in both wire encodings (JSON, protobuf) / leave / idle unload and re-attach / restart; three quarters of the histories with a failing (F k) or crashing (C k) adapter call k=1..5 on random requests (k=1 TopicUpdateOnMessage, 2 MessageSave, 3 SubsUpdate or FileLinkAttachments, 4 FileLinkAttachments of a reader); non-trivial = at least one acknowledged number; distinct by (ops, replies)",
         "acknowledged_numbers": acks, "op_kinds": kinds,
         "frames_compared_in_both_wire_encodings": both, "descriptions_in_both_encodings_with_read_or_recv_below_seq": lagging, "attachment_publish_outcomes": outcome,
         "failed_attachment_publish_followed_by_an_accepted_publish": failed_then_acked,
